@@ -58,7 +58,7 @@ class MatchTraverser:
         match.remembered_catch_state = None
         if self.root_match == match:
             match.remembered_on_catch_match = None
-            match.remembered_on_catch_action = self.done_action()
+            match.remembered_on_catch_action = self.done_action
         else:
             parent = match.real_parent
             match.remembered_on_catch_match = parent.remembered_on_catch_match
